@@ -38,7 +38,7 @@ theorem balance_factor_eq (d : Rec α β) (m : TreeImage α β) (l r : Nat) :
   | -- the computation split over extracted helpers (`@[simp]`, emitted by the translator): unfold and compare by cases
     (simp [balance_factor, Imp.balanceFactor, Id.run]
      repeat' split
-     all_goals (first | rfl | simp_all | omega))
+     all_goals (first | rfl | omega | (simp only [pure, Pure.pure] at *; omega) | simp_all))
 
 theorem left_rotate_eq (d : Rec α β) (m : TreeImage α β) (i : Nat) :
     left_rotate d m i = Imp.leftRotate d m i := by
